@@ -2,7 +2,7 @@
   Driver ops of C01 (trace acceptance, tie A).
 
   `["C01.trace", {"limit": n|null}, [[label, snapshot|null], …]]`
-     label    = ["arrive",k,e] | ["miss",k,e] | ["insert",k,g,e] | ["spawn",k,g] | ["take",k,g,e]
+     label    = ["arrive",k,e] | ["miss",k,e] | ["insert",k,g,e] | ["spawn",k,g] | ["start",k,g] | ["take",k,g,e]
               | ["finish",k,g] | ["fail",k,g] | ["ttake",k,g,e] | ["retire",k,g] | ["eos",k,g]
               | ["left",k,g] | ["cancel"] | ["eosput",k] | ["close"] | ["kill",k,g] | ["end"]
      snapshot = [pending, running, [[k, backlogSize], … sorted by k]]   (observed AFTER the segment)
@@ -36,6 +36,7 @@ def obsOf? (j : Json) : Option Obs := do
     | "miss", [k, e] => some (.lab (.miss k e))
     | "insert", [k, g, e] => some (.insertAs k g e)
     | "spawn", [k, g] => some (.spawnAs k g)
+    | "start", [k, g] => some (.lab (.start ⟨k, g⟩))
     | "take", [k, g, e] => some (.lab (.take ⟨k, g⟩ e))
     | "finish", [k, g] => some (.lab (.finish ⟨k, g⟩))
     | "fail", [k, g] => some (.lab (.fail ⟨k, g⟩))
@@ -55,7 +56,7 @@ def obsOf? (j : Json) : Option Obs := do
 
 def keysOf : Obs → List Nat
   | .lab (.arrive k _) | .lab (.miss k _) | .lab (.eosPut k) => [k]
-  | .lab (.take w _) | .lab (.finish w) | .lab (.fail w) | .lab (.timeoutTake w _) | .lab (.retire w)
+  | .lab (.start w) | .lab (.take w _) | .lab (.finish w) | .lab (.fail w) | .lab (.timeoutTake w _) | .lab (.retire w)
   | .lab (.retireCheck w) | .lab (.retireErase w) | .lab (.eosExit w) | .lab (.left w)
   | .lab (.kill w) => [w.key]
   | .insertAs k _ _ | .spawnAs k _ => [k]
